@@ -298,20 +298,3 @@ pub proof fn lemma_pair_le_total_ordering()
     assert(vstd::relations::transitive(leq));
     assert(vstd::relations::strongly_connected(leq));
 }
-/// Two canonical query strings of the same abstract map are equal: the result does not depend on HashMap iteration order,
-/// hash seed, or the order in which the parameters arrived.
-pub proof fn lemma_canon_query_unique(m: QMap, s1: Seq<u8>, s2: Seq<u8>)
-    requires is_canon_query(m, s1), is_canon_query(m, s2)
-    ensures s1 == s2 //# C10 C18 name=canonical_query_is_a_function_of_the_parameter_multiset
-{
-    let l1 = choose|l: Seq<Pair>| is_canon_list(m, l) && s1 == render(l);
-    let l2 = choose|l: Seq<Pair>| is_canon_list(m, l) && s2 == render(l);
-    lemma_pair_le_total_ordering();
-    assert(l1.to_multiset() =~= l2.to_multiset()) by {
-        assert forall|p: Pair| l1.to_multiset().count(p) == l2.to_multiset().count(p) by {
-            assert(l1.to_multiset().count(p) == pair_count(m, p));
-            assert(l2.to_multiset().count(p) == pair_count(m, p));
-        }
-    }
-    vstd::seq_lib::lemma_sorted_unique(l1, l2, |a: Pair, b: Pair| pair_le(a, b));
-}
